@@ -8,10 +8,17 @@ CFG = {
     "exhaustive": {"quick": False, "thorough": True},
     "rule": "all 8-bit patterns; 16-bit patterns (stride 13 quick / all 65536 thorough) x {u16,i16} x {be,le}; every "
             "remaining-length 0..w+1 for every width/endian/signedness; boundary 32/64-bit patterns; random buffers "
-            "<= 11 bytes x random cursor x random parser, each also through a RestrictView window of a larger allocation; non-trivial = multi-byte parser with >=2 bytes of buffer or a non-zero cursor",
+            "<= 11 bytes x random cursor x random parser, each also through a RestrictView window of a larger allocation; "
+            "ByteVecP lengths from the whole usize range (usize::MAX-k for k=0..16 and k=absolute offset+-2 i.e. both sides of the "
+            "point where cursor+len wraps, 2^63+-2, 2^32+-2, 2^31+-2, remaining-1..remaining+2, 0) x buffers of 0,1,2,3,8,20 bytes x "
+            "cursor 0,1,mid,end-1,end x {plain buffer, 5 windows with start 0 / start>0 / at the end of the allocation, 3 chains of 2-3 "
+            "nested RestrictViews}; every fixed-width parser x {be,le} x buffer lengths 0,1,w-1,w,w+1,2w+1 x the same cursors x the same "
+            "9 views; per random case one more ByteVecP request (length around the wrap point, a power of two, remaining, or uniform in "
+            "0..2^64-1) and one integer parser on a random chain of 0-3 views; a panic of the real code is judged `bad panic`; "
+            "non-trivial = multi-byte parser with >=2 bytes of buffer or a non-zero cursor",
     "trusted_base": COMMON_TB + [
         "modelled, not verified: ParseBuffer::peek/incr_cursor_unsafe/set_cursor_unsafe/extract as list indexing on a whole buffer (views: C17)"],
-    "assumptions": ["the model is over a plain byte list; that a restricted view behaves like a copy of its window is C17's theorem; the correspondence run exercises every parser both on plain buffers and on restricted views inside a larger allocation (case kinds prefixed with v)"],
+    "assumptions": ["the model is over a plain byte list; that a restricted view behaves like a copy of its window is C17's theorem; the correspondence run exercises every parser both on plain buffers and on restricted views inside a larger allocation (case kinds prefixed with v, or a fifth word @lead.trail/... for a chain of nested views)"],
 }
 LEVEL = {
     "design_ref": "DESIGN.md 3.C19",
